@@ -36,8 +36,26 @@ def c16_1(ctx):
             for b in st.body:
                 if isinstance(b, ast.AugAssign) and isinstance(b.op, ast.BitXor):
                     gen[bit] = f.fold(b.value)
+    if not gen:
+        # table form: a sequence / dict of the five constants xored in by a bit loop (`for i, g in enumerate(TABLE): if c0 >> i & 1: c ^= g`)
+        for nm in sorted({x.id for x in ast.walk(fn) if isinstance(x, ast.Name)} | set()):
+            v = f.fold(ast.Name(id=nm, ctx=ast.Load()))
+            if isinstance(v, (tuple, list)) and len(v) == 5 and all(isinstance(x, int) for x in v):
+                gen = {1 << i: x for i, x in enumerate(v)}
+            elif isinstance(v, dict) and len(v) == 5 and all(isinstance(k, int) and isinstance(x, int) for k, x in v.items()):
+                gen = dict(v)
+        if gen and not any(isinstance(x, ast.AugAssign) and isinstance(x.op, ast.BitXor) for x in ast.walk(fn)):
+            gen = {}
+    if any(not isinstance(v, int) for v in gen.values()):
+        gen = {}
+        for nm in sorted({x.id for x in ast.walk(fn) if isinstance(x, ast.Name)}):
+            v = f.fold(ast.Name(id=nm, ctx=ast.Load()))
+            if isinstance(v, (tuple, list)) and len(v) == 5 and all(isinstance(x, int) for x in v):
+                gen = {1 << i: x for i, x in enumerate(v)}
     ctx.count("table_entries", 5)
-    if gen == CORE_GEN:
+    if not gen:
+        out.append(ctx.err("descriptor:calc_poly_mod", "the five generator constants were not found (neither as an if-chain on the bits of c0 nor as a table)", fn, mod))
+    elif gen == CORE_GEN:
         out.append(ctx.ok("descriptor:calc_poly_mod", "five generator constants equal PolyMod() of Bitcoin Core", fn, mod, key="gen"))
     else:
         diff = {k: (hex(gen.get(k)) if isinstance(gen.get(k), int) else gen.get(k), hex(v)) for k, v in CORE_GEN.items() if gen.get(k) != v}
@@ -118,8 +136,18 @@ def _regex_checksum_group(pattern):
     tree = sre.parse(pattern)
     found = []
 
+    def flat(items):
+        """capturing / non-capturing groups are transparent for the question "what follows the `#`" """
+        out = []
+        for op, av in items:
+            if str(op) == "SUBPATTERN":
+                out.extend(flat(av[3]))
+            else:
+                out.append((op, av))
+        return out
+
     def walk(items):
-        items = list(items)
+        items = flat(items)
         for i, (op, av) in enumerate(items):
             opn = str(op)
             if opn == "SUBPATTERN":
@@ -202,10 +230,14 @@ def c16_4(ctx):
         for s, l in cfg.succ[t[0].id]:
             a = cfg.nodes[s].ast
             arms[l] = ast.unparse(a) if a is not None else ""
-    if "sorted(sec_hexes_to_use)" in arms.get(True, "") and "sorted(" not in arms.get(False, "x"):
+    t_arm, f_arm = arms.get(True, ""), arms.get(False, "")
+    sorts = lambda txt: "sorted(" in txt or ".sort(" in txt
+    if ("sorted(sec_hexes_to_use)" in t_arm or "sec_hexes_to_use.sort()" in t_arm) and not sorts(f_arm):
         out.append(ctx.ok(spec, "with sort_keys the child keys enter the script through sorted() (BIP67)", t[0].ast, mod, key="sorted-children"))
-    else:
+    elif not sorts(t_arm) or sorts(f_arm):
         out.append(ctx.bad(spec, "child keys are not sorted when sort_keys is set: %s" % arms, t[0].ast, mod, key="sorted-children"))
+    else:
+        out.append(ctx.err(spec, "what is sorted under sort_keys is not recognised: %s" % t_arm[:120], t[0].ast, mod))
     # default of sort_keys is True
     d = fn.args.defaults
     ps = param_names(fn)
@@ -292,7 +324,7 @@ def c16_6(ctx):
 
     def match(node, ex, atoms):
         t = node.ast
-        r = rl.rel(t, lambda e: "quorum_m" in ast.unparse(e), "len(key_records)")
+        r = rl.rel_x(fn, node, lambda e: "quorum_m" in ast.unparse(e), "len(key_records)")
         if r in (">", "<="):
             return BAD_TRUE if r == ">" else BAD_FALSE
         return None
